@@ -166,6 +166,13 @@ func (aggComp) Gen(r *rand.Rand, tier string, n int) []*wire.Case {
 		a.Ops = append(a.Ops, aggCase("", 4, 3, mixed, []int{3, 2, 1, 0}).Ops...)
 		cases = append(cases, a)
 	}
+	{
+		// flush, add more, flush again: the second report covers everything added so far
+		a := aggCase("d-two-flushes", 4, 3, mixed, []int{1, 0})
+		more := aggCase("", 4, 3, mixed, []int{2, 3})
+		a.Ops = append(a.Ops, more.Ops[1:]...)
+		cases = append(cases, a)
+	}
 	cases = append(cases, aggCase("d-none", 0, 2, nil, nil))
 	for i := 0; i < n; i++ {
 		k := 1 + r.Intn(40)
@@ -181,6 +188,12 @@ func (aggComp) Gen(r *rand.Rand, tier string, n int) []*wire.Case {
 		// the same multiset of results in two arrival orders within one case
 		a := aggCase(fmt.Sprintf("r%d", i), k, cycles, its, identity(k))
 		b := aggCase("", k, cycles, its, r.Perm(k))
+		// periodic flushes (the server pool flushes every few results): statistics are cumulative
+		for nf := r.Intn(3); nf > 0 && k > 1; nf-- {
+			at := 2 + r.Intn(k-1) // after the cfg op and at least one add
+			fl := wire.R("flush").Fs("cbrt", cbrtTable(k+1))
+			b.Ops = append(b.Ops[:at], append([]*wire.Rec{fl}, b.Ops[at:]...)...)
+		}
 		a.Ops = append(a.Ops, b.Ops...)
 		cases = append(cases, a)
 	}
